@@ -57,6 +57,7 @@ def open_model(path, mode="r", encoding=None):
     """open(): files of the ghost file system 'fs' (dict path -> content); a missing file raises FileNotFoundError;
     opening for writing registers the new file object under 'opened'."""
     fs = ghost_get("fs")
+    ghost("open_mode:" + str(path), mode)
     if "w" in mode:
         f = make_file(b"", mode)
         ghost("opened:" + str(path), f)
